@@ -6,11 +6,26 @@ import ASV.Spec.Orf
 namespace ASV.Orf
 open ASV
 
-/-- start and stop codon tables are disjoint (checked against the regenerated tables) -/
-theorem start_stop_disjoint : ∀ c ∈ Gen.startCodons, c ∉ Gen.stopCodons := by decide
+/-- the code's codon tables (regenerated from the tree under test on every run) contain exactly
+    the documented codons -/
+theorem tables_as_documented :
+    (∀ c ∈ Gen.startCodons, c ∈ docStartCodons) ∧ (∀ c ∈ docStartCodons, c ∈ Gen.startCodons) ∧
+    (∀ c ∈ Gen.stopCodons, c ∈ docStopCodons) ∧ (∀ c ∈ docStopCodons, c ∈ Gen.stopCodons) := by decide
 
-theorem not_start_and_stop (c : Seq) (h1 : isStart c = true) (h2 : isStop c = true) : False := by
-  simp only [isStart, isStop, List.contains_eq_mem, decide_eq_true_eq] at h1 h2
+theorem isStart_eq (c : Seq) : isStart c = isStartDoc c := by
+  rw [Bool.eq_iff_iff]
+  simp only [isStart, isStartDoc, List.contains_eq_mem, decide_eq_true_eq]
+  exact ⟨tables_as_documented.1 c, tables_as_documented.2.1 c⟩
+
+theorem isStop_eq (c : Seq) : isStop c = isStopDoc c := by
+  rw [Bool.eq_iff_iff]
+  simp only [isStop, isStopDoc, List.contains_eq_mem, decide_eq_true_eq]
+  exact ⟨tables_as_documented.2.2.1 c, tables_as_documented.2.2.2 c⟩
+
+theorem start_stop_disjoint : ∀ c ∈ docStartCodons, c ∉ docStopCodons := by decide
+
+theorem not_start_and_stop (c : Seq) (h1 : isStartDoc c = true) (h2 : isStopDoc c = true) : False := by
+  simp only [isStartDoc, isStopDoc, List.contains_eq_mem, decide_eq_true_eq] at h1 h2
   exact start_stop_disjoint c h1 h2
 
 /-- latch empty at `i`: every earlier in-frame start codon has been closed by a stop -/
@@ -108,16 +123,17 @@ theorem scanLoop_mem (w : Seq) (minLen : Int) :
     have hb' : cnt ≠ 0 → i + 3 + 3 * cnt ≤ w.length := by intro _; have := hb (by omega); omega
     rw [hit_succ]
     unfold scanLoop
+    simp only [isStart_eq, isStop_eq]
     cases start with
     | none =>
       have hn : NoPending w i := hinv
       have hno : ¬ (e = i ∧ IsOrf w s i ∧ minLen < orfLen s i) := fun h => noPending_no_orf hn h.2.1
-      by_cases hst : isStart (codonAt w i) = true
+      by_cases hst : isStartDoc (codonAt w i) = true
       · simp only [Option.isNone_none, hst, Bool.and_self, if_true]
         rw [ih (i + 3) (some i) (pending_new hn hst) hb']
         simp only [hno, false_or]
       · simp only [hst, Bool.and_false, Bool.false_eq_true, if_false]
-        by_cases hsp : isStop (codonAt w i) = true
+        by_cases hsp : isStopDoc (codonAt w i) = true
         · simp only [hsp, if_true]
           rw [ih (i + 3) none (noPending_after_stop hsp) hb']
           simp only [hno, false_or]
@@ -127,7 +143,7 @@ theorem scanLoop_mem (w : Seq) (minLen : Int) :
     | some s0 =>
       have hp : Pending w i s0 := hinv
       simp only [Option.isNone_some, Bool.false_and, Bool.false_eq_true, if_false]
-      by_cases hsp : isStop (codonAt w i) = true
+      by_cases hsp : isStopDoc (codonAt w i) = true
       · simp only [hsp, if_true]
         have horf : IsOrf w s0 i := pending_isOrf hp hsp hin
         by_cases hlen : ((i : Int) + 2) - (s0 : Int) < minLen
